@@ -96,6 +96,39 @@ def h_params_surface(cx, su, sv, centripetal):
     cx.eq('ends', [uk[0], uk[-1], vl[0], vl[-1]], [0, 1, 0, 1])
 
 
+def h_params_surface_scaled(cx, su, sv, centripetal, tiny):
+    """data of every size: a fixed axis-aligned grid whose row / column `tiny` (or the whole grid) is shrunk by ONE symbolic
+    factor sc > 0 - the parameters are defined by ratios of chord lengths, so a micro-scale row counts like any other"""
+    Fit = geo.M('fitting')
+    sc = cx.real('sc', lo=0)
+    cx.assume(sc > 0)
+    A = [0, 1, 3, 7, 8, 12][:max(su, sv)]          # spacings 1, 2, 4, 1, 4
+    B = [0, 2, 3, 6, 10, 11][:max(su, sv)]         # spacings 2, 1, 3, 4, 1
+    pts = []
+    for i in range(su):
+        for j in range(sv):
+            x, y = cx.const(B[i] if j % 2 else A[i]), cx.const(A[j] if i % 2 else B[j])
+            if tiny == 'all':
+                x, y = x * sc, y * sc
+            elif tiny[0] == 'row' and i == tiny[1]:
+                y = cx.const(A[j]) * sc
+            elif tiny[0] == 'col' and j == tiny[1]:
+                x = cx.const(A[i]) * sc
+            pts.append([x, y, cx.const(0)])
+    uk, vl = Fit.compute_params_surface([list(p) for p in pts], su, sv, centripetal)
+    cx.check('len', (len(uk), len(vl)) == (su, sv))
+    ref_u = [0] * su
+    for j in range(sv):
+        col = _params_def(cx, [pts[j + sv * i] for i in range(su)], centripetal)
+        ref_u = [a + b for a, b in zip(ref_u, col)]
+    ref_v = [0] * sv
+    for i in range(su):
+        row = _params_def(cx, [pts[j + sv * i] for j in range(sv)], centripetal)
+        ref_v = [a + b for a, b in zip(ref_v, row)]
+    cx.eq('uk', list(uk), [x / sv for x in ref_u])
+    cx.eq('vl', list(vl), [x / su for x in ref_v])
+
+
 def h_knot_vector(cx, p, n, ncp=None):
     """compute_knot_vector(2) on symbolic increasing parameters: clamped, non-decreasing, right length"""
     Fit = geo.M('fitting')
@@ -220,6 +253,9 @@ def instances(tier):
     for su, sv in ((2, 3), (3, 2)) + (() if quick else ((3, 3),)):
         for cent in (False, True):
             out.append(inst('params_surface %dx%d %s' % (su, sv, 'centripetal' if cent else 'chord'), h_params_surface, timeout=2400, su=su, sv=sv, centripetal=cent))
+    for su, sv, tiny in ((3, 4, ('row', 1)), (4, 3, ('col', 0)), (3, 3, 'all')):
+        for cent in (False, True):
+            out.append(inst('params_surface %dx%d shrunk %s %s' % (su, sv, tiny, 'centripetal' if cent else 'chord'), h_params_surface_scaled, timeout=1200, su=su, sv=sv, centripetal=cent, tiny=tiny))
     for p, n in ((1, 3), (2, 3), (2, 4), (3, 4), (2, 5), (3, 5)):
         out.append(inst('knot_vector p%d n%d' % (p, n), h_knot_vector, timeout=900, p=p, n=n))
     for p, n, ncp in ((1, 4, 3), (2, 5, 4), (2, 5, 3), (3, 6, 5)):
